@@ -9,6 +9,7 @@ import (
 	"strings"
 
 	"package-operator.run/internal/packages/zzverif/checks"
+	"package-operator.run/internal/packages/zzverif/checks/twin"
 	"package-operator.run/internal/packages/zzverif/explore"
 	"package-operator.run/internal/packages/zzverif/kmodel"
 	"package-operator.run/internal/packages/zzverif/osw"
@@ -179,11 +180,11 @@ func Invariant(w *world.World) []world.Finding {
 }
 
 type scenario struct {
-	Kind   string `json:"kind"` // chain2 | chain3 | deployment
-	Mask   uint   `json:"delegated"` // which revisions use a delegated phase
-	CP     string `json:"collisionProtection"`
-	Users  int    `json:"userEvents"`
-	Edits  int    `json:"edits"`
+	Kind  string `json:"kind"`      // chain2 | chain3 | deployment
+	Mask  uint   `json:"delegated"` // which revisions use a delegated phase
+	CP    string `json:"collisionProtection"`
+	Users int    `json:"userEvents"`
+	Edits int    `json:"edits"`
 	// Restarts / Conflicts: budgets of operator crashes before a request and of foreign writes
 	// landing just before a write of a pass
 	Restarts  int `json:"restarts"`
@@ -368,6 +369,22 @@ func replay(v report.Violation) string {
 	return osw.ReplayBFS(system(sc), v)
 }
 
+// twinScenarios: handovers r1 -> r2 on the cluster-scoped kinds in lockstep with the namespaced ones.
+func twinScenarios(quick bool) []twin.Scenario {
+	two := []string{"ready", "notready"}
+	out := []twin.Scenario{
+		{Kind: "chain", N: 2, Mask: 0, Successor: true, Classes: []string{"ready"}, Users: 1},
+		{Kind: "chain", N: 1, Mask: 0b1, Successor: true, Classes: []string{"ready"}, Users: 1},
+		{Kind: "deployment", Classes: []string{"ready"}, Edits: 1, Limit: -1},
+		{Kind: "chain", N: 2, Mask: 0b10, Classes: two, Users: 1},
+	}
+	if !quick {
+		out = append(out, twin.Scenario{Kind: "chain", N: 2, Mask: 0b10, Successor: true, Classes: []string{"ready"}, Users: 1}, twin.Scenario{Kind: "deployment", Classes: two, Edits: 2, Limit: 1},
+			twin.Scenario{Kind: "chain", N: 2, Mask: 0b01, Successor: true, Classes: []string{"ready"}, Users: 1, Third: 1})
+	}
+	return out
+}
+
 // ---- API-call granular interleavings of two revisions' passes ----
 
 type ilScenario struct {
@@ -536,6 +553,7 @@ func init() {
 				return 12
 			}, Run: run, Replay: replay, Parallel: true},
 			{Name: "interleavings", Shards: func(string) int { return 8 }, Run: runIL, Replay: replayIL},
+			{Name: "cluster-twin", Shards: func(string) int { return 4 }, Run: func(o checks.Opts) *report.Report { return twin.Run("C02", twinScenarios(o.Quick()), o) }, Replay: twin.Replay, Parallel: true},
 		},
 	})
 }
